@@ -717,3 +717,56 @@ func exprAt(cf *eng.CFG, loc eng.Loc, e ast.Expr) ast.Expr {
 	}
 	return e
 }
+
+// ctxDerives: every value the context expression e can hold derives from root: it is root, or
+// the result of a call one of whose arguments derives from root (context.WithCancel(root),
+// StartSpan(root, ...), RegisterForQueryEvents(root) ...), through any number of reassignments.
+func ctxDerives(f *eng.Func, e ast.Expr, root eng.Object, depth int) bool {
+	info := f.Info()
+	e = eng.Unparen(e)
+	if depth > 6 {
+		return false
+	}
+	if call, ok := e.(*ast.CallExpr); ok {
+		for _, a := range call.Args {
+			if tv, ok := info.Types[a]; ok && eng.TypeKey(tv.Type) == "context.Context" {
+				return ctxDerives(f, a, root, depth+1)
+			}
+		}
+		return false
+	}
+	o := eng.ObjOf(info, e)
+	if o == nil {
+		return false
+	}
+	if eng.Rep(o) == eng.Rep(root) {
+		return true
+	}
+	defs := assignsDeep(f.Root(), o)
+	if len(defs) == 0 {
+		return false
+	}
+	derived := false
+	for _, d := range defs {
+		if d == nil {
+			return false
+		}
+		// self-referential re-derivation (ctx, span := StartSpan(ctx, ...)) is fine as long as the other definitions derive
+		if call, ok := eng.Unparen(d).(*ast.CallExpr); ok {
+			self := false
+			for _, a := range call.Args {
+				if eng.IsObj(info, a, o) {
+					self = true
+				}
+			}
+			if self {
+				continue
+			}
+		}
+		if !ctxDerives(f, d, root, depth+1) {
+			return false
+		}
+		derived = true
+	}
+	return derived
+}
